@@ -20,14 +20,19 @@ LEVEL_TEXT = ("Machine-checked proof (Coq, closed under the global context) over
               "permission bits, uid, gid, atime, mtime) that SFTPServer.set_file_attr, as reached by SETSTAT (by path) "
               "and FSETSTAT (by handle), has for chmod/chown/utime/truncate requests exactly the effect of os.chmod/"
               "os.chown/os.utime/os.truncate, that truncating keeps the leading bytes and extending pads with zeros, "
-              "and that steps not requested leave their fields unchanged (for any combination of flags); the model is "
+              "that steps not requested leave their fields unchanged (for any combination of flags), and that any sequence "
+              "of such requests interleaved with arbitrary other changes to the file equals the same sequence of os.* "
+              "calls; flag bits and the list of steps (flag tested, call, order, open mode) are regenerated from "
+              "paramiko's AST each run (gen/c31.py) and proved equal to the modelled ones; the model is "
               "tied to sftp_server.py/sftp_client.py/sftp_file.py by running the real client against the real server "
-              "on a temp dir and comparing os.stat + file bytes with the model's definitions (vm_compute) every run.")
+              "on a temp dir - single requests and sequences of 2-4 requests on one open handle / path with writes in "
+              "between - and comparing os.stat + file bytes with the model's definitions (vm_compute) every run.")
 LEVEL_NOTE = ("Proof over a modelled file system: os.chmod/chown/utime/truncate and open('r+') are small Gallina "
               "re-implementations of their documented behaviour, validated only by the correspondence run; the "
               "modification time after a resize is an input taken from the implementation; permission errors, "
               "non-regular files, win32 and chown to foreign ids are outside the model.")
-TECHNIQUE = "Coq proof over a modelled file + vm_compute differential correspondence through real client/server"
+TECHNIQUE = ("Coq proof over a modelled file + AST translator for flag bits and step list + vm_compute differential "
+             "correspondence (single requests and request sequences) through real client/server")
 
 U32 = 2 ** 32
 
@@ -224,27 +229,204 @@ def model_case(case, obs):
     return text, expect
 
 
+# ---- sequences of requests on one file ------------------------------------------------------
+
+def gen_seq_case(rng, root_user):
+    """2-4 attribute requests on the same file (same open handle, or by path), with writes
+    (through the handle or by another writer) and out-of-band os.utime calls in between."""
+    data = gen_data(rng, 120)
+    by_handle = rng.random() < 0.7
+    kinds = ["chmod", "chown", "utime", "truncate"]
+    n = rng.randrange(2, 5)
+    ops = rng.sample(kinds, n) if rng.random() < 0.7 else [rng.choice(kinds) for _ in range(n)]
+    if rng.random() < 0.5:        # the patterns where a repeated earlier field shows most clearly
+        first = rng.choice(["truncate", "utime"])
+        ops = [first] + [k for k in ops if k != first][:3] or [first, "chmod"]
+        if len(ops) < 2:
+            ops.append("chmod")
+    steps = []
+    size_now = len(data)
+    for i, k in enumerate(ops):
+        if k == "chmod":
+            steps.append({"kind": "chmod", "mode": gen_mode(rng, False) | (0 if root_user else 0o600)})
+        elif k == "chown":
+            steps.append({"kind": "chown", "ids": (os.getuid(), os.getgid())})
+        elif k == "utime":
+            steps.append({"kind": "utime", "times": (gen_time(rng), gen_time(rng))})
+        else:
+            size_now = gen_size(rng, size_now, 160)
+            steps.append({"kind": "truncate", "size": size_now})
+        if i < len(ops) - 1 and rng.random() < 0.85:
+            r = rng.random()
+            if r < 0.7:
+                off = rng.choice([size_now, max(0, size_now - 3), size_now + rng.randrange(0, 20),
+                                  rng.randrange(0, size_now + 1)])
+                blob = bytes(rng.randrange(1, 256) for _ in range(rng.randrange(1, 40)))
+                steps.append({"kind": "write", "off": off, "data": blob,
+                              "via": "handle" if by_handle and rng.random() < 0.7 else "local"})
+                size_now = max(size_now, off + len(blob))
+            else:
+                steps.append({"kind": "touch", "times": (gen_time(rng), gen_time(rng))})
+    return {"seq": True, "data": data, "mode0": gen_mode(rng, False) | (0 if root_user else 0o600),
+            "atime0": gen_time(rng), "mtime0": gen_time(rng), "by_handle": by_handle, "steps": steps}
+
+
+def execute_seq(rig, root, case, name="s"):
+    """Run the steps; os.stat after each; final bytes."""
+    path = os.path.join(root, name)
+    if os.path.exists(path):
+        os.remove(path)
+    with open(path, "wb") as fh:
+        fh.write(case["data"])
+    os.chmod(path, case["mode0"])
+    os.utime(path, (case["atime0"], case["mtime0"]))
+    st0 = os.stat(path)
+    sftp, rpath = rig.sftp, "/" + name
+    fobj = sftp.open(rpath, "r+") if case["by_handle"] else None
+    stats = []
+    try:
+        for st in case["steps"]:
+            t0 = time.time()
+            k = st["kind"]
+            if k == "chmod":
+                fobj.chmod(st["mode"]) if fobj else sftp.chmod(rpath, st["mode"])
+            elif k == "chown":
+                fobj.chown(*st["ids"]) if fobj else sftp.chown(rpath, *st["ids"])
+            elif k == "utime":
+                fobj.utime(tuple(st["times"])) if fobj else sftp.utime(rpath, tuple(st["times"]))
+            elif k == "truncate":
+                fobj.truncate(st["size"]) if fobj else sftp.truncate(rpath, st["size"])
+            elif k == "write":
+                if st["via"] == "handle" and fobj:
+                    fobj.seek(st["off"])
+                    fobj.write(st["data"])
+                    fobj.flush()
+                else:
+                    fd = os.open(path, os.O_WRONLY)
+                    try:
+                        os.pwrite(fd, st["data"], st["off"])
+                    finally:
+                        os.close(fd)
+            elif k == "touch":
+                os.utime(path, tuple(st["times"]))
+            s = os.stat(path)
+            stats.append({"mode": s.st_mode & 0o7777, "uid": s.st_uid, "gid": s.st_gid, "atime": int(s.st_atime),
+                          "mtime": int(s.st_mtime), "size": s.st_size, "t0": t0, "t1": time.time()})
+    finally:
+        if fobj:
+            fobj.close()
+    with open(path, "rb") as fh:
+        after = fh.read()
+    return {"stats": stats, "data": after, "uid0": st0.st_uid, "gid0": st0.st_gid}
+
+
+FIELDS = ("mode", "uid", "gid", "atime", "mtime", "size")
+
+
+def oracle_seq(ctx, case, obs):
+    """Same effect as the corresponding sequence of os.* calls (simulated on a Python file record)."""
+    cur = {"mode": case["mode0"], "uid": obs["uid0"], "gid": obs["gid0"], "atime": case["atime0"],
+           "mtime": case["mtime0"], "data": bytes(case["data"])}
+    for i, (st, ob) in enumerate(zip(case["steps"], obs["stats"])):
+        k = st["kind"]
+        recent = ob["t0"] - 3 <= ob["mtime"] <= ob["t1"] + 3
+        if k == "chmod":
+            cur["mode"] = st["mode"] & 0o7777
+        elif k == "chown":
+            cur["uid"], cur["gid"] = st["ids"]
+        elif k in ("utime", "touch"):
+            cur["atime"], cur["mtime"] = st["times"]
+        elif k == "truncate":
+            n = st["size"]
+            cur["data"] = cur["data"][:n] + bytes(max(0, n - len(cur["data"])))
+            if recent:
+                cur["mtime"] = ob["mtime"]          # the time of the resize: an input
+        elif k == "write":
+            d, off, blob = cur["data"], st["off"], st["data"]
+            d = d + bytes(max(0, off - len(d)))
+            cur["data"] = d[:off] + blob + d[off + len(blob):]
+            if recent:
+                cur["mtime"] = ob["mtime"]
+            if ob["t0"] - 3 <= ob["atime"] <= ob["t1"] + 3:
+                cur["atime"] = ob["atime"]
+        want = dict(cur, size=len(cur["data"]))
+        for fld in FIELDS:
+            if ob[fld] != want[fld]:
+                ctx.fail("seq-%s-after-%s" % (fld, k),
+                         "in a sequence of requests on one file, step %d (%s, %s) left %s different from what the "
+                         "corresponding os.* call sequence gives (a request must not repeat or undo earlier ones)"
+                         % (i, k, "by handle" if case["by_handle"] else "by path", fld),
+                         case=case, expected={f: want[f] for f in FIELDS}, observed={f: ob[f] for f in FIELDS})
+                return False
+    if obs["data"] != cur["data"]:
+        ctx.fail("seq-final-contents", "file contents after a sequence of requests differ from the os.* call sequence",
+                 case=case, expected=cur["data"][:96], observed=obs["data"][:96])
+        return False
+    return True
+
+
+def model_seq_case(case, obs):
+    steps = []
+    for st, ob in zip(case["steps"], obs["stats"]):
+        k = st["kind"]
+        h = case["by_handle"]
+        if k == "chmod":
+            steps.append(("SAttr", h, 0, None, None, ("Some", st["mode"]), None))
+        elif k == "chown":
+            steps.append(("SAttr", h, 0, None, ("Some", tuple(st["ids"])), None, None))
+        elif k == "utime":
+            steps.append(("SAttr", h, 0, None, None, None, ("Some", tuple(st["times"]))))
+        elif k == "truncate":
+            steps.append(("SAttr", h, ob["mtime"], ("Some", st["size"]), None, None, None))
+        elif k == "write":
+            steps.append(("SWrite", ob["atime"], ob["mtime"], st["off"], list(st["data"])))
+        else:
+            steps.append(("STouch", st["times"][0], st["times"][1]))
+    text = "((%s), %s)" % (
+        ", ".join(coq(x) for x in (list(case["data"]), case["mode0"], obs["uid0"], obs["gid0"], case["atime0"],
+                                   case["mtime0"])),
+        "[" + ";".join(coq(x) for x in steps) + "]")
+    expect = []
+    for ob in obs["stats"]:
+        expect += [ob[f] for f in FIELDS]
+    return text, expect + list(obs["data"])
+
+
+def guarded_model(ctx, run_fn, case_type, cases, what, show):
+    """Model calls never stop the implementation-level oracle from reporting."""
+    try:
+        bad = ctx.model_mismatches(run_fn, case_type, [c for c, _ in cases], shard=200)
+    except Exception as e:  # noqa
+        ctx.disagree("model evaluation failed (%s): %s" % (run_fn, str(e)[-600:]))
+        return
+    for i in bad[:3]:
+        ctx.disagree(what, case=cases[i][1], impl=show(cases[i][1]))
+
+
 def run(ctx):
     rng = ctx.rng
     scale = 6 if ctx.thorough else 1
     root_user = os.geteuid() == 0
     ctx.rule = ("seeded generator: served file = random bytes (0..600 for model cases, up to 300 KB for oracle-only "
-                "cases), random permission bits and u32 times; one request per case: chmod / chown (current ids) / "
+                "cases), random permission bits and u32 times; (1) one request per case: chmod / chown (current ids) / "
                 "utime / truncate (targets smaller, equal, larger, 0) / combined flags, by path (SETSTAT) or by handle "
-                "(FSETSTAT) through the real SFTPClient/SFTPFile; a case is non-trivial when distinct and the request "
-                "changes at least one observable of the file")
+                "(FSETSTAT) through the real SFTPClient/SFTPFile; (2) sequences of 2-4 requests on the same open "
+                "handle / path with writes (through the handle or by another writer) and out-of-band os.utime calls "
+                "in between, os.stat after every step and the final bytes; a case is non-trivial when distinct and "
+                "at least one observable of the file changes")
     ctx.trusted += ["model coq/Model/C31.v is hand-written; os.chmod/chown/utime/truncate and open('r+') are Gallina "
                     "re-implementations of documented behaviour, tied to the real file system through the real "
-                    "client and server by this differential run",
-                    "mtime after a resize is taken from the implementation (bounded by wall clock in the oracle)"]
+                    "client and server by this differential run; flag bits and the order / calls of the steps of "
+                    "set_file_attr are regenerated from the source (gen/c31.py) and checked by proof obligations",
+                    "mtime after a resize / write is taken from the implementation (bounded by wall clock in the oracle)"]
     ctx.assumptions += ["served files are regular files the server process may modify; chown only to the current ids"]
     ctx.prove()
     root = tempfile.mkdtemp(prefix="verif-c31-")
     rig = None
+    cases, seqs = [], []
     try:
         rig = Rig(ctx.repo, root)
-        cases = []
-        for i in range(400 * scale):
+        for i in range(300 * scale):
             # Coq parses a few thousand numerals per second: most model cases are small files
             case = gen_case(rng, 600 if i % 10 == 0 else 120, root_user)
             obs = execute(rig, root, case)
@@ -253,18 +435,20 @@ def run(ctx):
             ctx.count(tuple(sorted((k, repr(v)) for k, v in case.items())), nontrivial=changes,
                       kind=case["op"] + ("-handle" if case["by_handle"] else "-path"))
             oracle(ctx, case, obs)
-            cases.append((case, obs))
+            cases.append((model_case(case, obs), (case, obs)))
             if i < 2:
                 ctx.sample({"case": case, "observed": {k: obs[k] for k in ("mode", "uid", "gid", "atime", "mtime")},
                             "observed_len": len(obs["data"])})
-        bad = ctx.model_mismatches(
-            "run_set_attr",
-            "(Z * (list Z * Z * Z * Z * Z * Z) * (option Z * option (Z * Z) * option Z * option (Z * Z)))",
-            [model_case(c, o) for c, o in cases], shard=200)
-        for i in bad[:3]:
-            c, o = cases[i]
-            ctx.disagree("set_file_attr through client/server differs from the model", case=c,
-                         impl={k: o[k] for k in ("mode", "uid", "gid", "atime", "mtime", "data")})
+        # sequences on one file
+        for i in range(150 * scale):
+            case = gen_seq_case(rng, root_user)
+            obs = execute_seq(rig, root, case)
+            ctx.count(repr(sorted(case.items())), nontrivial=True,
+                      kind="seq-handle" if case["by_handle"] else "seq-path")
+            oracle_seq(ctx, case, obs)
+            seqs.append((model_seq_case(case, obs), (case, obs)))
+            if i < 1:
+                ctx.sample({"sequence": case, "stats": [{f: o[f] for f in FIELDS} for o in obs["stats"]]})
         # larger files: oracle only
         for i in range(25 * scale):
             case = gen_case(rng, 300_000, root_user)
@@ -280,14 +464,45 @@ def run(ctx):
         if rig:
             rig.close()
         shutil.rmtree(root, ignore_errors=True)
+    guarded_model(ctx, "run_set_attr",
+                  "(Z * (list Z * Z * Z * Z * Z * Z) * (option Z * option (Z * Z) * option Z * option (Z * Z)))",
+                  cases, "set_file_attr through client/server differs from the model",
+                  lambda co: {k: co[1][k] for k in ("mode", "uid", "gid", "atime", "mtime", "data")})
+    guarded_model(ctx, "run_seq", "((list Z * Z * Z * Z * Z * Z) * list step)", seqs,
+                  "a sequence of requests through client/server differs from the model folded over it",
+                  lambda co: {"stats": [{f: o[f] for f in FIELDS} for o in co[1]["stats"]], "data": co[1]["data"]})
 
 
 def _unhex(v):
     return bytes.fromhex(v["hex"]) if isinstance(v, dict) and "hex" in v else v
 
 
+def _replay_seq(ctx, case):
+    case["data"] = _unhex(case["data"])
+    for st in case["steps"]:
+        if "data" in st:
+            st["data"] = _unhex(st["data"])
+        for k in ("ids", "times"):
+            if st.get(k) is not None:
+                st[k] = tuple(st[k])
+    root = tempfile.mkdtemp(prefix="verif-c31-")
+    rig = None
+    try:
+        rig = Rig(ctx.repo, root)
+        for j in range(2):
+            obs = execute_seq(rig, root, case)
+            ctx.count(("replay-seq", j, repr(sorted(case.items()))))
+            oracle_seq(ctx, case, obs)
+    finally:
+        if rig:
+            rig.close()
+        shutil.rmtree(root, ignore_errors=True)
+
+
 def replay(ctx, rep):
     case = dict(rep["case"])
+    if case.get("seq"):
+        return _replay_seq(ctx, case)
     if "data" not in case or not isinstance(case["data"], dict) or "hex" not in case["data"]:
         return run(ctx)
     case["data"] = _unhex(case["data"])
